@@ -1,6 +1,7 @@
 #![allow(dead_code, unused_variables, unused_imports, clippy::all)]
 mod gen;
 mod hist;
+mod hostile;
 mod model;
 mod obs;
 mod prim;
@@ -106,6 +107,8 @@ fn run_hist(a: &Args, acc: &mut Acc) {
     let steps = a.u64("steps", 300) as usize;
     let budget = a.u64("budget-s", 0);
     let replay_dir = a.s("replay-dir", "/verif/replays");
+    let hostile_n = a.u64("hostile", 0);
+    let extreme = a.u64("extreme", 0) == 1;
     let start = Instant::now();
     let mut master = prim::Rng::new(seed.wrapping_mul(0x9E3779B97F4A7C15) ^ (shard + 1).wrapping_mul(0xD1B54A32D192ED03));
     let mut h = 0u64;
@@ -120,7 +123,13 @@ fn run_hist(a: &Args, acc: &mut Acc) {
         }
         let hseed = master.next();
         let mut crng = prim::Rng::new(hseed);
-        let cfg = if h == 0 && shard == 0 { scenario::Cfg::default_cfg() } else { scenario::Cfg::random(&mut crng) };
+        let cfg = if h == 0 && shard == 0 {
+            scenario::Cfg::default_cfg()
+        } else if extreme && h % 2 == 1 {
+            scenario::Cfg::random_extreme(&mut crng)
+        } else {
+            scenario::Cfg::random(&mut crng)
+        };
         let mut run = match hist::Run::new(&cfg, &props) {
             Ok(r) => r,
             Err(r) => {
@@ -146,6 +155,17 @@ fn run_hist(a: &Args, acc: &mut Acc) {
         let prof = hist::profile_for(props[0], &mut crng);
         let mut g = gen::Gen::new(hseed ^ 0xabcdef, prof);
         run.random_steps(&mut g, steps);
+        if hostile_n > 0 {
+            // interleave hostile messages with ordinary traffic so that extreme configuration
+            // accepted on the way becomes part of the reachable states
+            for k in 0..hostile_n {
+                let ops = hostile::next(&mut g.rng, &run.sc, &run.obs);
+                run.steps(ops);
+                if k % 4 == 3 {
+                    run.random_steps(&mut g, 1);
+                }
+            }
+        }
         // merge
         for (k, v) in &run.model.counters {
             acc.add(k, *v);
